@@ -90,6 +90,22 @@ pub mod btree_map {
                 Err(idx) => Entry::Vacant(VacantEntry { map: self, key, idx }),
             }
         }
+        /// entries whose key lies in `r`, ascending
+        pub fn range<R: std::ops::RangeBounds<K>>(&self, r: R) -> impl Iterator<Item = (&K, &V)> + '_ {
+            use std::ops::Bound::*;
+            let lo = match r.start_bound() {
+                Included(k) => match self.find(k) { Ok(i) => i, Err(i) => i },
+                Excluded(k) => match self.find(k) { Ok(i) => i + 1, Err(i) => i },
+                Unbounded => 0,
+            };
+            let hi = match r.end_bound() {
+                Included(k) => match self.find(k) { Ok(i) => i + 1, Err(i) => i },
+                Excluded(k) => match self.find(k) { Ok(i) => i, Err(i) => i },
+                Unbounded => self.n,
+            };
+            let hi = if hi < lo { lo } else { hi };
+            self.slots[lo..hi].iter().map(|s| { let (k, v) = s.as_ref().unwrap(); (k, v) })
+        }
         /// splits off everything at and after `k`
         pub fn split_off(&mut self, k: &K) -> Self {
             let i = match self.find(k) { Ok(i) => i, Err(i) => i };
